@@ -9,6 +9,13 @@ from concurrent.futures import ProcessPoolExecutor
 HERE = os.path.dirname(os.path.dirname(os.path.abspath(__file__)))
 
 
+COUNTS = {}
+
+
+def below_floor(counts, floors, rule):
+    return any(counts.get("%s|%s" % (rule, kind), 0) < need for kind, need in floors.get(rule, {}).items())
+
+
 def catalogue():
     items = []
     p = os.path.join(HERE, "mutants", "catalogue.json")
@@ -47,7 +54,15 @@ def run_one(args):
             res = analyse(Program(facts, "dev"))
         except (Inconclusive, KeyError) as e:
             return item["id"], "inconclusive", [str(e)]
-        return item["id"], "analysed", sorted(set("%s:%s" % (v["rule"], v["key"]) for v in res.violations))
+        counts = {}
+        for o in res.obligations:
+            k = "%s|%s" % (o[0], o[1].split(":")[0])
+            counts[k] = counts.get(k, 0) + 1
+        COUNTS[item["id"]] = counts
+        keys = sorted(set("%s:%s" % (v["rule"], v["key"]) for v in res.violations))
+        if item.get("want_counts"):
+            return item["id"], "analysed", keys, counts
+        return item["id"], "analysed", keys
     finally:
         shutil.rmtree(td, ignore_errors=True)
 
@@ -56,10 +71,14 @@ def selftest(pid, repo, relevant_keys, known_keys, baseline_keys):
     """relevant_keys(keys) -> subset relevant to pid."""
     items = catalogue()
     out = {"defects_expected": 0, "defects_reported": 0, "benign_total": 0, "benign_silent": 0, "skipped": 0, "failures": [], "details": []}
-    jobs = [(it, repo) for it in items if it["kind"] != "defect" or pid in it["properties"]]
+    jobs = [(dict(it, want_counts=True), repo) for it in items if it["kind"] != "defect" or pid in it["properties"]]
     with ProcessPoolExecutor(max_workers=min(16, max(1, len(jobs)))) as ex:
         results = list(ex.map(run_one, jobs))
-    for (it, _), (iid, status, keys) in zip(jobs, results):
+    import props
+    floors = json.load(open(os.path.join(HERE, "floors.json")))
+    for (it, _), r in zip(jobs, results):
+        iid, status, keys = r[0], r[1], r[2]
+        counts = r[3] if len(r) > 3 else None
         if status != "analysed":
             out["skipped"] += 1
             out["details"].append({"id": iid, "status": status})
@@ -74,6 +93,11 @@ def selftest(pid, repo, relevant_keys, known_keys, baseline_keys):
             out["details"].append({"id": iid, "status": "reported" if new else "MISSED", "keys": new[:4], "edit": it["edit"][:100]})
         else:
             out["benign_total"] += 1
+            low = [ru for ru in props.PROPS[pid] if counts is not None and below_floor(counts, floors, ru)]
+            if low and not new:
+                out["failures"].append("%s (behaviour-preserving) leaves %s below its floor: the check would answer INCONCLUSIVE" % (iid, low))
+                out["details"].append({"id": iid, "status": "INCONCLUSIVE", "rules_below_floor": low})
+                continue
             if not new:
                 out["benign_silent"] += 1
             else:
